@@ -374,7 +374,7 @@ func (e *Engine) initGhostVal(k string) Value {
 	if g, ok := e.initGhost[k]; ok {
 		return g
 	}
-	v := e.freshVar("ghost_"+k, e.ghostSort(k))
+	v := e.freshGhost(&State{}, k)
 	e.initGhost[k] = v
 	return v
 }
@@ -560,6 +560,13 @@ func (e *Engine) applyContract(fr *Frame, st *State, con *Contract, sig *types.S
 			continue
 		}
 		ctx.havoc(l, "mod_"+sanitize(exprStr(m)))
+	}
+	for _, g := range con.GhostInc {
+		cur, ok := st.ghost[g].(*Term)
+		if !ok {
+			cur, _ = e.ghostInit(st, g).(*Term)
+		}
+		st.ghost[g] = Add(cur, Num(1))
 	}
 	res := e.freshResults(st, sig)
 	for i, name := range con.Results {
